@@ -1,5 +1,5 @@
 (* Proofs of the C04/C05 script-layer theorems (statements repeated in Props.v). *)
-From Coq Require Import List NArith ZArith Bool Lia.
+From Coq Require Import List NArith ZArith Bool Lia String.
 From LV Require Import Script.Interp Script.Parse Script.Witness Gen.GenScripts Script.Spend.
 From LV Require Import Script.Proofs Script.Paths.
 Import ListNotations.
@@ -642,3 +642,35 @@ Proof.
     all: try (subst h; apply Hrip).
 Qed.
 
+(* the order of the symbolic witness items the positional theorems rely on *)
+Lemma witness_roles :
+  spend_multi_sig_params = ["sig_b"%string; "sig_a"%string; "witness_script"%string]
+  /\ sender_htlc_spend_revoke_with_key_params = ["sweep_sig"%string; "revoke_key"%string; "witness_script"%string]
+  /\ sender_htlc_spend_redeem_params = ["sweep_sig"%string; "payment_preimage"%string; "witness_script"%string]
+  /\ sender_htlc_spend_timeout_params = ["receiver_sig"%string; "sweep_sig"%string; "witness_script"%string]
+  /\ sender_htlc_script_taproot_redeem_params = ["sweep_sig"%string; "preimage"%string; "witness_script"%string; "ctrl_block"%string]
+  /\ sender_htlc_script_taproot_timeout_params = ["receiver_sig"%string; "sweep_sig"%string; "witness_script"%string; "ctrl_block_bytes"%string]
+  /\ sender_htlc_script_taproot_revoke_params = ["sweep_sig"%string]
+  /\ receiver_htlc_spend_redeem_params = ["sender_sig"%string; "sweep_sig"%string; "payment_preimage"%string; "witness_script"%string]
+  /\ receiver_htlc_spend_revoke_with_key_params = ["sweep_sig"%string; "revoke_key"%string; "witness_script"%string]
+  /\ receiver_htlc_spend_timeout_params = ["sweep_sig"%string; "witness_script"%string]
+  /\ receiver_htlc_script_taproot_redeem_params = ["sender_sig"%string; "sweep_sig"%string; "payment_preimage"%string; "witness_script"%string; "ctrl_block"%string]
+  /\ receiver_htlc_script_taproot_timeout_params = ["sweep_sig"%string; "witness_script"%string; "ctrl_block"%string]
+  /\ receiver_htlc_script_taproot_revoke_params = ["sweep_sig"%string]
+  /\ taproot_htlc_spend_revoke_params = ["sweep_sig"%string]
+  /\ taproot_htlc_spend_success_params = ["sweep_sig"%string; "witness_script"%string; "ctrl_block"%string]
+  /\ htlc_spend_success_params = ["sweep_sig"%string; "witness_script"%string]
+  /\ htlc_spend_revoke_params = ["sweep_sig"%string; "witness_script"%string]
+  /\ htlc_second_level_spend_params = ["sweep_sig"%string; "witness_script"%string]
+  /\ taproot_commit_spend_success_params = ["sweep_sig"%string; "witness_script"%string; "ctrl_block_bytes"%string]
+  /\ taproot_commit_spend_revoke_params = ["revoke_sig"%string; "witness_script"%string; "ctrl_block_bytes"%string]
+  /\ commit_spend_timeout_params = ["sweep_sig"%string; "witness_script"%string]
+  /\ commit_spend_revoke_params = ["sweep_sig"%string; "witness_script"%string]
+  /\ commit_spend_no_delay_params = ["sweep_sig"%string; "key_desc_pub_key"%string; "tweak_pub_key_with_tweak"%string]
+  /\ taproot_commit_remote_spend_params = ["sweep_sig"%string; "witness_script"%string; "ctrl_block_bytes"%string]
+  /\ commit_spend_to_remote_confirmed_params = ["sweep_sig"%string; "witness_script"%string]
+  /\ taproot_anchor_spend_params = ["sweep_sig"%string]
+  /\ taproot_anchor_spend_any_params = ["sweep_leaf_script"%string; "sweep_control_block"%string]
+  /\ commit_spend_anchor_params = ["sweep_sig"%string; "witness_script"%string]
+  /\ commit_spend_anchor_anyone_params = ["script"%string].
+Proof. repeat split; reflexivity. Qed.
